@@ -10,7 +10,7 @@ from pbmon.props.c01 import PROTOS, proto_class
 PROPERTY = "C02"
 NSHARDS = {"quick": 6, "thorough": 16}
 CLAUSES = {"C02.adjacent": 60, "C02.segregation": 60, "C02.nonadjacent": 200, "C02.independence": 200,
-           "C02.exact": 2000, "C02.xoprob": 100}
+           "C02.exact": 2000, "C02.xoprob": 100, "C02.selfing": 10}
 HOOKS_REQUIRED = ["mat_meiosis calls", "dense_meiosis calls", "constant uniform() interceptions"]
 RULE = ("layouts = (chromosome structure, crossover-probability vector or Haldane/Kosambi map, mating protocol) drawn from seeded "
         "classes; per layout >= 3e5 (quick) / 1e6 (thorough) logged meioses of fully heterozygous founders through the real protocols "
@@ -26,11 +26,13 @@ LOG = MO.MeiosisLog()
 
 
 # ---------------------------------------------------------------- layouts
-def gen_layout(g):
+def gen_layout(g, c=None):
     nchr = int(g.integers(1, 5)); m = int(g.integers(max(2, nchr), 41))
     chrgrp = pop.chrom_layout(g, m, nchr)
     st = pop.chrom_starts(chrgrp)
     kind = ["constant", "random", "mixed", "haldane", "haldane", "kosambi", "leading-zeros"][int(g.integers(7))]
+    if c is not None and c % len(PROTOS) < 2 and kind == "leading-zeros":
+        kind = "mixed"     # the end-to-end selfing clause needs 0.5 at chromosome starts
     genpos = None
     if kind == "constant":
         xo = numpy.full(m, float(g.choice([0.01, 0.1, 0.25, 0.5]))); xo[st] = 0.5
@@ -47,6 +49,8 @@ def gen_layout(g):
         xo = None
     pname = PROTOS[int(g.integers(len(PROTOS)))][0]
     nself = int(g.choice([0, 0, 1, 2]))
+    if c is not None:      # rotate protocols and selfing depths so that even the 12 quick layouts cover every protocol
+        pname = PROTOS[c % len(PROTOS)][0]; nself = [1, 0, 2, 0][(c // len(PROTOS)) % 4]
     return dict(m=m, nchr=nchr, chrgrp=chrgrp, start=st, kind=kind, xo=xo, genpos=genpos, proto=pname, nself=nself)
 
 
@@ -55,6 +59,8 @@ def ntests_of(L):
     n = (m - 1) + m + (m - 1) * (m - 2) // 2
     if L["kind"] == "haldane":
         n += m * (m - 1) // 2
+    if L["proto"] in ("SelfCross", "TwoWayCross"):
+        n += m          # end-to-end heterozygosity of the returned progeny, per locus
     return n
 
 
@@ -98,6 +104,7 @@ class Acc:
         self.n_pair = numpy.zeros((m, m), dtype=numpy.int64); self.c_pair = numpy.zeros((m, m), dtype=numpy.int64)
         self.n_int = numpy.zeros((m, m), dtype=numpy.int64); self.k_int = numpy.zeros((m, m), dtype=numpy.int64)
         self.gametes = 0
+        self.n_prog = 0; self.k_het = numpy.zeros(m, dtype=numpy.int64)
 
     def add(self, geno, sel, gam):
         P0 = geno[0][sel]; P1 = geno[1][sel]
@@ -132,7 +139,10 @@ def collect(L, seed, ngam):
     while acc.gametes < ngam:
         LOG.clear()
         if L["proto"] in ("SelfCross", "TwoWayCross"):
-            P.mate(pg, xc, 1, chunk // 4, nself=L["nself"])
+            out = P.mate(pg, xc, 1, chunk // 4, nself=L["nself"])
+            # end-to-end (independent of the hook): every founder is heterozygous 0|1, so a progeny locus is heterozygous with
+            # probability (1/2)^(1+nself) when both gametes of each selfed individual segregate independently at 1/2
+            acc.n_prog += out.mat.shape[1]; acc.k_het += (out.mat[0] != out.mat[1]).sum(0)
         else:
             P.mate(pg, xc, 100, chunk // 400, nself=L["nself"])
         for (geno, sel, xo, gam) in LOG.events:
@@ -156,6 +166,10 @@ def tests(L, xo, acc):
     if numpy.all(xo[L["start"]] == 0.5):
         for j in range(m):
             yield ("C02.segregation", ("seg", j), int(acc.k_seg[j]), int(acc.n_seg[j]), 0.5)
+    if L["proto"] in ("SelfCross", "TwoWayCross"):
+        if numpy.all(xo[L["start"]] == 0.5):
+            for j in range(m):
+                yield ("C02.selfing", ("het", j), int(acc.k_het[j]), int(acc.n_prog), 0.5 ** (1 + L["nself"]))
     if L["kind"] == "haldane":
         gp = L["genpos"]; ch = L["chrgrp"]
         for i in range(m):
@@ -170,7 +184,7 @@ def tests(L, xo, acc):
 
 def case_stat(ctx, c, level, ngam):
     g = ctx.rng("layout", c)
-    L = gen_layout(g)
+    L = gen_layout(g, c)
     LOG.install()
     coords = [c, "stat"]
     icls = "%s xoprob" % L["kind"]
@@ -324,7 +338,7 @@ def plan(ctx):
     ids = list(ctx.case_ids(qn, tn))
     total = qn if ctx.tier == "quick" else tn
     # family size over the WHOLE run (all shards), known before sampling: layouts are a pure function of the case number
-    ntot = sum(ntests_of(gen_layout(ctx.rng("layout", c))) for c in range(total))
+    ntot = sum(ntests_of(gen_layout(ctx.rng("layout", c), c)) for c in range(total))
     return ids, ST.ALPHA_FAMILY / max(1, ntot), ntot
 
 
